@@ -122,6 +122,14 @@ def cse(expressions, cse_concat=True, cse_in_brackets=False, verbose=False):
         for v in common_exprs:
             print(f"    {[' '.join([str(y) for y in x]) for x in v]}")
 
+    # Remove expressions that contain axes both with and without known value. Replacing e.g. "b 3" with a single new axis
+    # would drop the constraint that its value must be divisible by 3
+    def has_mixed_values(common_expr):
+        has_value = [axis.value is not None for exprlist in common_expr for expr in exprlist for axis in expr.nodes() if isinstance(axis, Axis)]
+        return any(has_value) and not all(has_value)
+
+    common_exprs = [common_expr for common_expr in common_exprs if not has_mixed_values(common_expr)]
+
     # Remove expressions with/ in markers
     if cse_in_brackets:
         common_exprs = [
